@@ -774,6 +774,18 @@ func (s *sim) cursorDeviationKey(o *txOp, m, r []string) string {
 	if o.cur[i].kind != cNext && o.cur[i].kind != cPrev {
 		return ""
 	}
+	// a reversal anywhere between the last absolute positioning and step i
+	// leaves the two merged iterators inconsistent
+	first := dir(o.cur[i].kind)
+	for j := i - 1; j >= 0; j-- {
+		d := dir(o.cur[j].kind)
+		if d != 0 && d != first {
+			return "cursor-direction-reversal"
+		}
+		if k := o.cur[j].kind; k == cFirst || k == cLast || k == cSeek {
+			break
+		}
+	}
 	// Cursor.Delete makes the pending-keys iterator remember its key for a
 	// reseek; First/Last/Seek do not forget it, so the next relative move after
 	// a repositioning continues from the stale key
@@ -786,18 +798,6 @@ func (s *sim) cursorDeviationKey(o *txOp, m, r []string) string {
 			if sawAbs && j < len(r) && r[j] == "D:ok" {
 				return "cursor-stale-reseek-after-delete"
 			}
-		}
-	}
-	// a reversal anywhere between the last absolute positioning and step i
-	// leaves the two merged iterators inconsistent
-	first := dir(o.cur[i].kind)
-	for j := i - 1; j >= 0; j-- {
-		d := dir(o.cur[j].kind)
-		if d != 0 && d != first {
-			return "cursor-direction-reversal"
-		}
-		if k := o.cur[j].kind; k == cFirst || k == cLast || k == cSeek {
-			break
 		}
 	}
 	return ""
